@@ -1,4 +1,5 @@
 import Ccp.Proofs.TreeForest
+import Ccp.Proofs.TreeBanner
 /-!
 # C03 — family relations form a consistent forest
 
@@ -195,6 +196,67 @@ theorem flags_spec (t : T) (i : Nat) :
     have := mem_children.mpr hj
     rw [h] at this; cases this
 
+/-! ## banner and macro bodies: every body line is a direct child of its start line -/
+
+/-- **Body lines are direct children of their start line and of no other line.**  In the final
+tree of any line list under any option set: if line `i` is owned by the start line `s` — the
+last `macro name` line (syntax ios) whose stretch reaches `i`, or, when no macro start reaches
+`i`, the last banner start whose stretch reaches `i` (`Spec/BannerLinks.lean`; the stretch
+includes the closing line) — then `s` comes before `i`, is its parent, `i` occurs exactly once
+in `s`'s child list and in no other child list.  So a banner / macro family is flat: however the
+body is indented, no body line hangs under another body line. -/
+theorem body_line_child_of_start (cfg : Cfg) (ls : List Str) (i s : Nat)
+    (hi : i < (parse cfg ls).size)
+    (hs : macroOwner cfg (parse cfg ls).texts i = some s ∨
+      (macroOwner cfg (parse cfg ls).texts i = none ∧ bannerOwner (parse cfg ls).texts i = some s)) :
+    s < i ∧ parentOf (parse cfg ls) i = s ∧
+    (∀ p, i ∈ children (parse cfg ls) p ↔ p = s) ∧ (children (parse cfg ls) s).count i = 1 := by
+  obtain ⟨h1, h2⟩ := specParentFull_of_owner cfg _ i s hs
+  have hp : parentOf (parse cfg ls) i = s := by rw [parse_parentOf cfg ls i hi, h1]
+  have hne : parentOf (parse cfg ls) i ≠ i := by omega
+  obtain ⟨h3, h4⟩ := child_in_exactly_one_list (parse cfg ls) i hi hne
+  rw [hp] at h3 h4
+  exact ⟨h2, hp, h3, h4⟩
+
+/-- The same, spelled out for a banner with `ignore_blank_lines` off: `i` lies in the stretch of
+the banner start `b`, no later banner start before `i` reaches `i`, and (ios) no macro start
+reaches `i`. -/
+theorem banner_body_line_child (cfg : Cfg) (ls : List Str) (hi : cfg.ignoreBlank = false) (b i : Nat)
+    (hcov : covers coverB ls b i = true)
+    (hlast : ∀ m, b < m → m < i → covers coverB ls m i = false)
+    (hmac : cfg.ios = true → ∀ m, m < i → covers coverM ls m i = false) :
+    i ∈ children (parse cfg ls) b ∧ ∀ p, i ∈ children (parse cfg ls) p → p = b := by
+  have ht : (parse cfg ls).texts = ls := parse_texts_noIgnore cfg ls hi
+  have hbi : b < i := ((covers_iff coverB ls b i).mp hcov).1
+  have hil : i < (parse cfg ls).size := by
+    simp only [T.size, ht]; exact covers_lt_length coverB coverB_le ls b i hcov
+  have hm : macroOwner cfg ls i = none := by
+    unfold macroOwner
+    split
+    · rename_i hios; exact (lastCover_eq_none coverM ls i i).mpr (hmac hios)
+    · rfl
+  have hb : bannerOwner ls i = some b := (lastCover_eq_some coverB ls i i b).mpr ⟨hbi, hcov, hlast⟩
+  obtain ⟨_, _, h3, _⟩ := body_line_child_of_start cfg ls i b hil (by rw [ht]; exact Or.inr ⟨hm, hb⟩)
+  exact ⟨(h3 b).mpr rfl, fun p hp => (h3 p).mp hp⟩
+
+/-- … and for a macro (syntax ios): `i` lies in the stretch of the macro start `m`, and no later
+macro start before `i` reaches `i`. -/
+theorem macro_body_line_child (cfg : Cfg) (ls : List Str) (hi : cfg.ignoreBlank = false)
+    (hios : cfg.ios = true) (m i : Nat)
+    (hcov : covers coverM ls m i = true)
+    (hlast : ∀ q, m < q → q < i → covers coverM ls q i = false) :
+    i ∈ children (parse cfg ls) m ∧ ∀ p, i ∈ children (parse cfg ls) p → p = m := by
+  have ht : (parse cfg ls).texts = ls := parse_texts_noIgnore cfg ls hi
+  have hmi : m < i := ((covers_iff coverM ls m i).mp hcov).1
+  have hil : i < (parse cfg ls).size := by
+    simp only [T.size, ht]; exact covers_lt_length coverM coverM_le ls m i hcov
+  have hm : macroOwner cfg ls i = some m := by
+    unfold macroOwner
+    rw [if_pos hios]
+    exact (lastCover_eq_some coverM ls i i m).mpr ⟨hmi, hcov, hlast⟩
+  obtain ⟨_, _, h3, _⟩ := body_line_child_of_start cfg ls i m hil (by rw [ht]; exact Or.inl hm)
+  exact ⟨(h3 m).mpr rfl, fun p hp => (h3 p).mp hp⟩
+
 /-! ## non-vacuity: concrete configs -/
 
 def exCfg : Cfg := { ios := true, delims := ['!'], ignoreBlank := false }
@@ -236,5 +298,19 @@ example : familyEndpoint (parse exCfg exDeep) 1 = 3 := by decide
 example : siblings (parse exCfg exDeep) 1 = [1, 4] := by decide
 example : IsAncestor (parse exCfg exDeep) 0 3 :=
   ((ancestors_spec (parse_forest exCfg exDeep) 3).1 0).mp (by decide +kernel)
+
+/-- hypotheses of `body_line_child_of_start` / `banner_body_line_child` / `macro_body_line_child`
+are satisfiable: line 2 of `exBanner` (a blank body line) is owned by the banner start 0, line 7
+of `exDeep` (a deeper-indented macro body line) by the macro start 5 -/
+example : macroOwner exCfg (parse exCfg exBanner).texts 2 = none ∧
+    bannerOwner (parse exCfg exBanner).texts 2 = some 0 := by decide
+example : macroOwner exCfg (parse exCfg exDeep).texts 7 = some 5 := by decide
+example : covers coverB exBanner 0 3 = true ∧ (∀ m, 0 < m → m < 3 → covers coverB exBanner m 3 = false) ∧
+    (∀ m, m < 3 → covers coverM exBanner m 3 = false) :=
+  ⟨((lastCover_eq_some coverB exBanner 3 3 0).mp (by decide)).2.1,
+   ((lastCover_eq_some coverB exBanner 3 3 0).mp (by decide)).2.2,
+   (lastCover_eq_none coverM exBanner 3 3).mp (by decide)⟩
+example : covers coverM exDeep 5 8 = true ∧ (∀ q, 5 < q → q < 8 → covers coverM exDeep q 8 = false) :=
+  ((lastCover_eq_some coverM exDeep 8 8 5).mp (by decide)).2
 
 end Ccp.C03
